@@ -53,7 +53,8 @@ pub const PATHS: [&str; 5] = [
     "p::a::K",
     "p::r#type::L",
     "a::K",
-    "p::a::Z",
+    // spelled with leading colons: registrations are keyed by the path as written
+    "::p::a::Z",
     "p::r#type::L::X",
 ];
 const D1: &str = "::d::One";
@@ -104,19 +105,19 @@ fn spec_of(s: &ValState) -> SettingsSpec {
             }
             Choice::Substitute => sp.substitutes.push((
                 p.clone(),
-                format!("::t::{}", p.replace("::", "_").replace("r#", "")),
+                format!("::t::{}", p.trim_start_matches("::").replace("::", "_").replace("r#", "")),
             )),
             Choice::SubstAndSpecDerive => {
                 sp.substitutes.push((
                     p.clone(),
-                    format!("::t::{}", p.replace("::", "_").replace("r#", "")),
+                    format!("::t::{}", p.trim_start_matches("::").replace("::", "_").replace("r#", "")),
                 ));
                 sp.derives_for.push((p, vec![D1.into()], false));
             }
             Choice::SubstAndRecAttr => {
                 sp.substitutes.push((
                     p.clone(),
-                    format!("::t::{}", p.replace("::", "_").replace("r#", "")),
+                    format!("::t::{}", p.trim_start_matches("::").replace("::", "_").replace("r#", "")),
                 ));
                 sp.attrs_for.push((p, vec![A2.into()], true));
             }
@@ -176,9 +177,10 @@ fn model(s: &ValState, reg: &PortableRegistry) -> Model {
             c,
             Choice::Substitute | Choice::SubstAndSpecDerive | Choice::SubstAndRecAttr
         ) {
+            // substitute rules are keyed by the path's segments: the error names the source without leading colons
             sub.insert(
-                p.clone(),
-                squash(&format!("::t::{}", p.replace("::", "_").replace("r#", ""))),
+                p.trim_start_matches("::").to_string(),
+                squash(&format!("::t::{}", p.trim_start_matches("::").replace("::", "_").replace("r#", ""))),
             );
         }
     }
@@ -371,7 +373,7 @@ pub fn check_sim(c: &SimCase, ctx: &mut Ctx) {
     let q = query_path(&c.query);
     ctx.exec(1);
     let replay = || json!({"check": "C11-sim", "case": serde_json::to_value(c).unwrap()});
-    let last = c.query.rsplit("::").next().unwrap_or("");
+    let last = c.query.split('<').next().unwrap_or("").rsplit("::").next().unwrap_or("");
     let want: Vec<String> = if c.query.is_empty() {
         vec![]
     } else {
@@ -412,8 +414,9 @@ fn sim_cases(thorough: bool) -> Vec<SimCase> {
         "a::S", "b::S", "a::T", "b::c::S", "b::c::T", "S::a", "a::S2",
     ];
     let pool = if thorough { &pool[..] } else { &pool[..6] };
+    // (the last two are written the way a substitute source is: with generic arguments on the final segment)
     let queries = [
-        "x::S", "S", "T", "y::U", "a::b::S", "", "Option", "a::S", "S::a",
+        "x::S", "S", "T", "y::U", "a::b::S", "", "Option", "a::S", "S::a", "x::S<A, B>", "T<A>",
     ];
     let mut out = vec![];
     // all subsets of size <= 4 in all orders
@@ -471,7 +474,7 @@ pub fn run(tier: &str, seed: u64) -> i32 {
     report.add(explore(&dval, &budget, seed, |s, ctx| check_state(s, ctx)));
     let cases = sim_cases(thorough);
     report.add(sweep(
-        "D-similar(all ordered selections of <= 4 registry paths over last identifiers {S, T, a, S2} x 9 queries)",
+        "D-similar(all ordered selections of <= 4 registry paths over last identifiers {S, T, a, S2} x 11 queries)",
         &cases,
         Duration::from_secs(if thorough { 300 } else { 150 }),
         |c| serde_json::to_value(c).unwrap(),
